@@ -332,6 +332,7 @@ class Interp(object):
         self.steps = 0
         self.cur = None                      # (module, node) being evaluated
         self.call_trace = None               # list to record calls when enabled
+        self.on_enter = None                 # callable(closure, args, kwargs): observer of every call of a package function
         self.on_return = None                # hook(closure, value): called when an analysed function returns
         self.loop_log = None                 # list: one record per finished `for` loop (how it ended, iterations) when enabled
         self.loop_stack = []                 # records of the `for` loops being executed (innermost last)
@@ -746,6 +747,8 @@ class Interp(object):
             self.bind_args(clo, node.args, args, kwargs, fr)
             if self.call_trace is not None:
                 self.call_trace.append(('enter', clo.qualname, self.cur))
+            if self.on_enter is not None:
+                self.on_enter(clo, args, kwargs)       # every call of a function of the package, however it was reached
             if isinstance(node, ast.Lambda):
                 return self.eval(node.body, fr)
             if clo.is_generator:
